@@ -42,11 +42,13 @@ Proof. exact kaykobad_cone. Qed.
 Print Assumptions C04_kaykobad_cone.
 
 (* failures: ValueError (documented), or an escape whose kind and cause is pinned down *)
+(* for EVERY context, including variable-free terms such as '0 <= -0.5' that a tactic can leave behind (before repo commit
+   12672f5 an AssertionError escaped from the simplification step there, and this theorem needed a side condition on ctx) *)
 Theorem C04_errors_total : forall O order self ctx vs sp e,
-  lp_total O -> (forall num, In num order -> in16 num) -> (ctx = [] \/ all_have_vars ctx = true) ->
+  lp_total O -> (forall num, In num order -> in16 num) ->
   elim_vars_by_refining O self ctx vs sp order = inr e \/ elim_vars_by_relaxing O self ctx vs sp order = inr e ->
   e = ValueErr \/ ((e = Escape "IndexError" \/ e = Escape "fuel") /\ In 4%nat order).
-Proof. exact TacticsFacts.C04_errors_total. Qed.
+Proof. exact TacticsFacts.C04_errors_total_any_context. Qed.
 Print Assumptions C04_errors_total.
 
 (* the "_" precondition of tactic 3 is real (documented limit of the code, outside the property's inputs) *)
